@@ -147,6 +147,14 @@ class DFV:
                 v = v.value if v.index_kind == "table" else sp.Function("ALIGNED_ON_FRESH_ROW_LABELS")(as_sym(v.value))
             self.cols[idx] = as_sym(v)
             return
+        if isinstance(idx, Tup) and idx.items and all(isinstance(i, str) for i in idx.items) and hasattr(v, "cols") and hasattr(v, "index_kind"):
+            # table[list of names] = frame: column by column, aligned on the row labels like a single labelled column
+            if [str(c) for c in v.cols] != list(idx.items):
+                raise ev.err("block assignment of a frame whose columns are not the addressed ones, in order", t, mod)
+            for name in idx.items:
+                val = as_sym(v.cols[name])
+                self.cols[name] = val if v.index_kind == "table" else sp.Function("ALIGNED_ON_FRESH_ROW_LABELS")(val)
+            return
         raise ev.err("DataFrame store", t, mod)
 
 
